@@ -188,17 +188,27 @@ func (in *inliner) expandKids(m *Mod, scopes [][]*Grouping, kids []*Node) []*Nod
 			}
 			applyRefine(t, r.Stmts)
 		}
-		for _, a := range k.Augments {
-			t := findNode(body, a.Target)
-			if t == nil {
-				in.err = fmt.Errorf("inliner: augment target %s not found", a.Target)
+		// (the order in which the augments of a uses are written means nothing: one whose target another one adds waits)
+		pending := append([]*Augment(nil), k.Augments...)
+		for len(pending) > 0 {
+			var later []*Augment
+			for _, a := range pending {
+				t := findNode(body, a.Target)
+				if t == nil {
+					later = append(later, a)
+					continue
+				}
+				added := in.expandKids(m, scopes, Clone(a.Kids))
+				for _, ak := range added {
+					inherit(ak, a.When, a.IfFeatures, a.Status)
+				}
+				t.Kids = append(t.Kids, added...)
+			}
+			if len(later) == len(pending) {
+				in.err = fmt.Errorf("inliner: augment target %s not found", later[0].Target)
 				return out
 			}
-			added := in.expandKids(m, scopes, Clone(a.Kids))
-			for _, ak := range added {
-				inherit(ak, a.When, a.IfFeatures, a.Status)
-			}
-			t.Kids = append(t.Kids, added...)
+			pending = later
 		}
 		for _, b := range body {
 			inherit(b, k.When, k.IfFeatures, k.Status)
